@@ -8,7 +8,7 @@ use rdp::model::link::{Link, Stream};
 use serde::{Deserialize, Serialize};
 
 pub const LEVEL: &str = "fault_enumeration";
-pub const RULE: &str = "case = (entry point Link::write | tpkt::Client::write | x224::Client::write, payload length, writer behaviour = per-call caps / Ok(0) / EINTR schedule, optional hard error injected at byte position p). Oracle against the reference framing F of the payload: bytes accepted by the writer are always a prefix of F; Ok implies all of F was accepted; a writer that never fails and accepts >= 1 byte per call implies Ok; an injected hard error before |F| implies Err; a payload that does not fit the 16-bit TPKT length implies Err with nothing written. boundary-sweep enumerates every length around the 16-bit boundaries and every error position for small frames; all-lengths every payload length 0..=65540 at each entry point with whole and 4096-byte partial writes; sequences and 30 % of the generated cases write several messages through the same client (per message: the bytes the stream accepts during the call are a prefix of that message's frame and all of it iff Ok; an oversized message in between must be refused without a byte; after a transient stream error (one failing call, WStep::Fail) the failed message is reported and the next message must again go out as exactly its own frame). Non-trivial = at least one short write, an injected error, or a length within 8 of a 16-bit boundary; distinct by hash of the case.";
+pub const RULE: &str = "case = (entry point Link::write | tpkt::Client::write | x224::Client::write, payload length, writer behaviour = per-call caps / Ok(0) / EINTR schedule, optional hard error injected at byte position p). Oracle against the reference framing F of the payload: bytes accepted by the writer are always a prefix of F; Ok implies all of F was accepted; a writer that never fails and accepts >= 1 byte per call implies Ok; an injected hard error before |F| implies Err; a payload that does not fit the 16-bit TPKT length implies Err with nothing written. boundary-sweep enumerates every length around the 16-bit boundaries and every error position for small frames; all-lengths every payload length 0..=65540 at each entry point with whole and 4096-byte partial writes; sequences and 30 % of the generated cases write several messages through the same client (per message: the bytes the stream accepts during the call are a prefix of that message's frame and all of it iff Ok; an oversized message in between must be refused without a byte; after a transient stream error (one failing call of any io::ErrorKind: BrokenPipe, TimedOut, ConnectionReset ...) the failed message is reported and the next message must again go out as exactly its own frame). Non-trivial = at least one short write, an injected error, or a length within 8 of a 16-bit boundary; distinct by hash of the case.";
 
 #[derive(Serialize, Deserialize, Hash, Clone, Debug)]
 pub struct Case {
@@ -65,7 +65,7 @@ pub fn run(c: &Case) -> Outcome {
         out.label("several-messages");
     }
     let never_fails = c.fail_at.map(|p| p as usize >= total).unwrap_or(true) && c.schedule.iter().all(|s| matches!(s, WStep::Cap(_)));
-    if c.schedule.iter().any(|s| matches!(s, WStep::Fail)) {
+    if c.schedule.iter().any(|s| matches!(s, WStep::Fail | WStep::FailKind(_))) {
         out.label("transient-error");
     }
     let (w, acc) = AdvWriter::new(c.schedule.clone(), c.fail_at.map(|x| x as usize));
@@ -160,7 +160,13 @@ fn schedule(s: &mut Src) -> Vec<WStep> {
                 .map(|_| match s.below(11) {
                     0 => WStep::Zero,
                     1 => WStep::Interrupted,
-                    10 => WStep::Fail,
+                    10 => {
+                        if s.bool() {
+                            WStep::Fail
+                        } else {
+                            WStep::FailKind(s.below(10) as u8)
+                        }
+                    }
                     _ => WStep::Cap(1 + s.small(2000) as u16),
                 })
                 .collect()
@@ -188,7 +194,7 @@ pub fn decode(s: &mut Src) -> Case {
     if !sch.is_empty() && !sch.iter().any(|x| matches!(x, WStep::Cap(_))) {
         sch.push(WStep::Cap(1));
     }
-    let transient = sch.iter().any(|x| matches!(x, WStep::Fail));
+    let transient = sch.iter().any(|x| matches!(x, WStep::Fail | WStep::FailKind(_)));
     let flen = len + [0, 4, 7][entry as usize];
     let fail_at = if s.chance(96) { Some(s.below(flen as usize + 2) as u32) } else { None };
     let fill = s.u32();
@@ -239,6 +245,14 @@ fn all_lengths(part: usize, parts: usize) -> impl Iterator<Item = Case> {
 /// several messages through one client: an oversized one between two that fit, repeated lengths, growing and shrinking sizes
 fn sequences() -> Vec<Case> {
     let mut v = Vec::new();
+    // every error kind, before the first byte and after part of the frame, followed by a second message
+    for entry in 0..3u8 {
+        for kind in 0..10u8 {
+            for sch in [vec![WStep::FailKind(kind), WStep::Cap(60000), WStep::Cap(60000), WStep::Cap(60000)], vec![WStep::Cap(8), WStep::FailKind(kind), WStep::Cap(60000), WStep::Cap(60000), WStep::Cap(60000), WStep::Cap(60000)], vec![WStep::Cap(60000), WStep::FailKind(kind)]] {
+                v.push(Case { entry, len: 20, schedule: sch, fail_at: None, fill: 5, more: vec![20, 7, 300] });
+            }
+        }
+    }
     for entry in 0..3u8 {
         for sch in [vec![], vec![WStep::Cap(7)], vec![WStep::Cap(1000), WStep::Interrupted, WStep::Cap(1)], vec![WStep::Fail, WStep::Cap(5000), WStep::Cap(5000), WStep::Cap(5000)], vec![WStep::Cap(3), WStep::Fail, WStep::Cap(60000), WStep::Cap(60000), WStep::Cap(60000), WStep::Cap(60000), WStep::Cap(60000)], vec![WStep::Cap(60000), WStep::Cap(60000), WStep::Fail]] {
             for lens in [vec![10u32, 70000, 10], vec![0, 0, 0, 1], vec![65528, 65529, 65530, 65531, 65532, 65533, 5], vec![5000, 40, 5000, 40, 9000], vec![100; 40], vec![1, 2, 4, 8, 16, 32, 64, 128, 256, 512, 1024, 2048, 4096, 8192, 16384, 32768, 65000], vec![65000, 3, 65000, 3]] {
